@@ -866,6 +866,50 @@ class Discharger:
                 return False
         return True
 
+    def counter_rule(self, site):
+        """`n += c` / `n -= c` on a 64-bit (or wider) local that starts from a small constant and is only ever changed by small
+        constant steps: overflow needs about 2^55 executions of the statement, which no run performs"""
+        if site.kind != "K3" or site.what.split(":")[0] != "Overflow" or site.what.split(":")[1] not in ("Add", "Sub"):
+            return None
+        a, b = site.node["ops"]
+        cb = const_operand(b)
+        p = op_place(a)
+        if cb is None or abs(cb) > 256 or p is None or p["p"]:
+            return None
+        # the operand is (a copy of) the counter variable
+        src = self.src_local(a)
+        if src is None or src["p"]:
+            return None
+        var = src["l"]
+        ty = self.fn.local_ty(var)
+        if ty not in ("i64", "u64", "i128", "u128", "usize", "isize"):
+            return None
+        if 1 <= var <= self.fn.argc:
+            return None
+        for d in self.defs.defs.get(var, []):
+            if d[0] != "st" or d[3]["k"] != "=" or d[3]["lhs"]["p"]:
+                return None
+            rv = d[3]["rv"]
+            if rv["k"] == "use":
+                c = const_operand(rv["op"])
+                if c is not None and abs(c) <= (1 << 32):
+                    continue
+                # `n = move (_t.0)` where _t = n +/- small const
+                q = op_place(rv["op"])
+                if q is not None and len(q["p"]) == 1 and isinstance(q["p"][0], dict) and q["p"][0].get("f") == 0:
+                    dd = self.defs.single(q["l"])
+                    if dd and dd[0] == "st" and dd[3]["rv"]["k"] == "bin" and dd[3]["rv"]["op"] in ("AddWithOverflow", "SubWithOverflow"):
+                        x, y = dd[3]["rv"]["a"], dd[3]["rv"]["b"]
+                        sx = self.src_local(x)
+                        cy = const_operand(y)
+                        if sx is not None and not sx["p"] and sx["l"] == var and cy is not None and abs(cy) <= 256:
+                            continue
+                return None
+            return None
+        if ty in ("u64", "u128", "usize") and site.what.split(":")[1] == "Sub":
+            return None  # an unsigned counter can underflow after one step
+        return "counter: %s starts from a small constant and moves by steps of at most 256; overflow needs > 2^54 executions" % (self.fn.local_name(var) or "_%d" % var)
+
     def size_rule(self, site):
         """Add/Mul on usize values that are lengths / indices / len_utf8."""
         if site.kind != "K3" or not site.what.startswith("Overflow:"):
